@@ -36,7 +36,7 @@ SilentRegister == \E f \in pend : /\ rpc[f] \in {"idle", "limited"}
 SilentRequeue == /\ rqAvail > 0 /\ (\E c \in F : Requeue(c))
                  /\ rqAvail' = rqAvail - 1 /\ rqUnacked' = rqUnacked + 1 /\ UNCHANGED <<l, pend>>
 
-TRegBegin   == IsEv("regbegin") /\ pend' = pend \cup {Ev.f} /\ UNCHANGED <<vars, rqAvail, rqUnacked>>
+TRegBegin   == IsEv("regbegin") /\ Ev.f \in F /\ pend' = pend \cup {Ev.f} /\ UNCHANGED <<vars, rqAvail, rqUnacked>>
 TRegistered == IsEv("registered") /\ Ev.f \in pend /\ rpc[Ev.f] \in {"reading", "done"} /\ pend' = pend \ {Ev.f} /\ UNCHANGED <<vars, rqAvail, rqUnacked>>
 TClosed     == IsEv("closed") /\ agg = "run" /\ ch[cur] = 0 /\ closed[cur] /\ UNCHANGED <<vars, pend, rqAvail, rqUnacked>>
 TNext       == IsEv("next") /\ AggClosedNext /\ UNCHANGED <<pend, rqAvail, rqUnacked>>
